@@ -213,7 +213,15 @@ def compare3(a, b):
     return 1
 
 
-def sym_argsort(vals, descending=False, ties="stable"):
+TIES = ["stable"]  # 'stable' | 'assume_distinct' (symbolic values are assumed pairwise distinct and distinct from constants)
+
+
+def sym_argsort(vals, descending=False, ties=None):
+    ties = ties or TIES[0]
+    return _sym_argsort(vals, descending, ties)
+
+
+def _sym_argsort(vals, descending=False, ties="stable"):
     """insertion sort driven by forking comparisons; returns list of indices.
     ties: 'stable' keeps original order for equal keys; 'assume_distinct' assumes none."""
     idx = []
@@ -233,9 +241,7 @@ def sym_argsort(vals, descending=False, ties="stable"):
             else:
                 if ties == "assume_distinct":
                     e = (v == w)
-                    if e is True:
-                        raise Infeasible("tie under assume_distinct")
-                    if e is not False:
+                    if e is not True and e is not False:
                         assume(e.negate())
                 else:
                     # decide equality explicitly so ties are separate paths
